@@ -508,6 +508,9 @@ pub fn block(obj: Obj, deadline_ns: Option<u64>) -> Wake {
     }
     st.threads[c.tid].status = if obj == Obj::Settle { Status::Settling } else { Status::Blocked(obj) };
     st.threads[c.tid].wake = Wake::Notified;
+    if !matches!(obj, Obj::Mutex(_)) {
+        st.threads[c.tid].holder = None;
+    }
     if let Some(dl) = deadline_ns {
         st.timer_seq += 1;
         let seq = st.timer_seq;
